@@ -105,6 +105,16 @@ package redis
 //@ assigns nothing
 //@ ensures result != nil && fresh(result) && result.Type == proto.ArrayMessage && result.array != nil && fresh(result.array) && len(result.array.msgs) == 0 && result.array.index == 0 && fresh(result.array.msgs)
 
+//@ func NewStringArrayMessage
+//@ assigns nothing
+//@ ensures {C01} result != nil && fresh(result) && result.Type == proto.ArrayMessage && result.bytes == nil && result.array != nil && fresh(result.array)
+//@ ensures {C01} len(result.array.msgs) == len(strs) && result.array.index == 0
+//@ ensures {C01} forall j int :: 0 <= j && j < len(strs) ==> result.array.msgs[j] != nil && result.array.msgs[j].Type == proto.BulkMessage && result.array.msgs[j].bytes != nil && string(result.array.msgs[j].bytes) == strs[j] && result.array.msgs[j].array == nil
+//@ loop 0
+//@   invariant -1 <= rangeindex && rangeindex < len(strs) && len(array.msgs) == rangeindex + 1 && array.index == 0 && fresh(array) && fresh(array.msgs)
+//@   invariant forall j int :: 0 <= j && j <= rangeindex ==> array.msgs[j] != nil && fresh(array.msgs[j]) && array.msgs[j].Type == proto.BulkMessage && array.msgs[j].bytes != nil && string(array.msgs[j].bytes) == strs[j] && array.msgs[j].array == nil
+//@   decreases len(strs) - rangeindex
+
 //@ func NewArrayMessageWithArray
 //@ assigns nothing
 //@ ensures result != nil && fresh(result) && result.Type == proto.ArrayMessage && result.array == val
@@ -434,10 +444,18 @@ package redis
 //@ requires args != nil
 //@ assigns args.index
 //@ ensures {C17} err == nil ==> result0.MatchPattern != nil && isGlob(result0.MatchPattern)
+//@ ensures {C17} err == nil && !old(hasArg(args, 0)) ==> glob_of[result0.MatchPattern] == "*"
+//@ ensures {C17} err == nil && old(len(args.msgs) == args.index + 2 && strArg(args, 0) && toUpper(argS(args, 0)) == "MATCH") ==> glob_of[result0.MatchPattern] == old(argS(args, 1))
 //@ ensures old(args.index) <= args.index
 //@ loop 0
 //@   invariant old(args.index) <= args.index && args.index <= len(args.msgs)
 //@   invariant {C17} opt.MatchPattern != nil && isGlob(opt.MatchPattern)
+//@   invariant {C17} err == nil ==> args.index >= old(args.index) + 1 && param == string(args.msgs[args.index - 1].bytes)
+//@   invariant {C17} args.index <= old(args.index) + 1 ==> glob_of[opt.MatchPattern] == "*"
+//@   invariant {C17} old(strArg(args, 0)) ==> args.index >= old(args.index) + 1
+//@   invariant {C17} !old(hasArg(args, 0)) ==> err != nil && args.index <= old(args.index) + 1
+//@   invariant {C17} old(strArg(args, 0) && toUpper(argS(args, 0)) == "MATCH") && args.index == old(args.index) + 1 ==> err == nil
+//@   invariant {C17} old(len(args.msgs) == args.index + 2 && strArg(args, 0) && toUpper(argS(args, 0)) == "MATCH") && args.index == old(args.index) + 2 ==> glob_of[opt.MatchPattern] == old(argS(args, 1))
 //@   decreases len(args.msgs) - args.index + (err == nil ? 1 : 0)
 
 // ---------------------------------------------------------------- system_commander.go / server_auth.go (the handlers the server installs on itself)
@@ -654,6 +672,8 @@ package redis
 //@ executor "SCAN"
 //@ ensures {C05} H_calls == old(H_calls) + 1 ==> H_m[old(H_calls)] == "Scan" && H_conn[old(H_calls)] == conn && H_Scan_cursor[old(H_calls)] == old(argI(args, 0)) && result0 == H_res[old(H_calls)] && err == H_err[old(H_calls)]
 //@ ensures {C17} H_calls == old(H_calls) + 1 ==> H_Scan_opt_MatchPattern[old(H_calls)] != nil && isGlob(H_Scan_opt_MatchPattern[old(H_calls)])
+//@ ensures {C17} H_calls == old(H_calls) + 1 && !old(hasArg(args, 1)) ==> glob_of[H_Scan_opt_MatchPattern[old(H_calls)]] == "*"
+//@ ensures {C17} H_calls == old(H_calls) + 1 && old(len(args.msgs) == args.index + 3 && strArg(args, 1) && toUpper(argS(args, 1)) == "MATCH") ==> glob_of[H_Scan_opt_MatchPattern[old(H_calls)]] == old(argS(args, 2))
 //@ ensures {C05,C10} H_calls == old(H_calls) || H_calls == old(H_calls) + 1
 //@ ensures {C10} !old(intArg(args, 0)) ==> err != nil && H_calls == old(H_calls)
 
